@@ -644,8 +644,11 @@ void FloatString(char* pDest, size_t DestSize, Double f) {
 
     /* 5. Maximallaenge ueberschritten ? */
 
+    /* (the mantissa digits are d[1]..d[n]: drop the last ones, not the ones in front
+       of the last one) */
+
     if (strlen(pDest) > MaxLen) {
-        strmov(d + (n - (strlen(pDest) - MaxLen)), d + n);
+        strmov(d + 1 + (n - (strlen(pDest) - MaxLen)), d + 1 + n);
     }
 
     /* 6. Exponentenwert berechnen */
